@@ -231,6 +231,11 @@ pub struct Interp<'l> {
     /// set when a bare scalar names a non-unit variant at an enum position
     /// (classifier input for violation signatures)
     pub bare_nonunit_seen: bool,
+    /// set when `!Variant <plain null>` selects a newtype variant whose payload type is a
+    /// string or char (classifier input for violation signatures)
+    pub tagged_null_payload_seen: bool,
+    /// set when a *mapping* node carries a tag naming a variant of the expected enum
+    pub tagged_map_payload_seen: bool,
     /// Some(context) while interpreting a sub-document that the crate deserializes
     /// from a recorded buffer ("tagged-variant" payload, "map-key"). Only used to
     /// give surplus elements inside such a sub-document their own reason class.
@@ -549,15 +554,13 @@ impl Interp<'_> {
                             Nullness::NotNull => Expect::MustErr("tagged-unit-variant-with-payload"),
                         },
                         VariantTy::Newtype(t) => {
-                            // the payload is the scalar without the variant tag; do not depend on
-                            // whether it is then seen as untagged or as `!!str`
-                            let a = self.scalar_payload(t, value, *style, None);
-                            let b = self.scalar_payload(t, value, *style, Some("!!str"));
-                            if a == b {
-                                a.map(|v| TVal::variant(i, v))
-                            } else {
-                                Expect::Unspecified("tagged-scalar-payload-tag-dependent")
+                            // `!Variant P` means the same as `{Variant: P}`: the payload is the scalar
+                            // as written (same text and style) without the variant tag. The crate's
+                            // documentation makes no exception for tag-selected payloads.
+                            if matches!(t.peel_newtypes(), Ty::Str | Ty::Char) && nullness(value, *style, None) == Nullness::Null {
+                                self.tagged_null_payload_seen = true;
                             }
+                            self.scalar_payload(t, value, *style, None).map(|v| TVal::variant(i, v))
                         }
                         _ => self.payload(e, i, n, true),
                     },
@@ -575,8 +578,15 @@ impl Interp<'_> {
                 _ => Expect::Unspecified("tagged-container"),
             },
             RNode::Map { entries, .. } => {
-                if tk != TagKind::None {
-                    return Expect::Unspecified("tagged-map-at-enum");
+                match &tk {
+                    TagKind::None => {}
+                    // `!Variant {..}` means `{Variant: {..}}`, like for scalar and sequence payloads
+                    TagKind::Name(t) if e.index_of(t).is_some() => {
+                        self.tagged_map_payload_seen = true;
+                        let i = e.index_of(t).unwrap();
+                        return self.payload(e, i, n, true);
+                    }
+                    _ => return Expect::Unspecified("tagged-map-at-enum"),
                 }
                 if key_check(entries) == Keys::Merge {
                     return Expect::Unspecified("merge-key");
